@@ -631,6 +631,20 @@ def run(prog: Program) -> Results:
     check_canonical_lookups(prog, res)
     check_segment_state(prog, res)
     check_escape_machines(prog, res)
+    # an `@` inside a quoted name is part of the name (shared with R-C09-6)
+    from sa.rules import c09
+    sub9 = c09.run(prog)
+    st9 = sub9.rules.get("R-C09-6")
+    r6 = res.rule("R-C12-6", "a name containing `@` stays addressable: the scope-selector split looks only at the leading run of `@` "
+                  "(shared with R-C09-6)", floor=1)
+    if st9:
+        r6.instances, r6.obligations, r6.discharged = st9.instances, st9.obligations, st9.discharged
+    for fnd in sub9.findings:
+        if fnd.rule == "R-C09-6":
+            res.add("R-C12-6", fnd.key, fnd.where, fnd.message)
+    for u in sub9.unclassified:
+        if "_split_scope_npath" in u:
+            res.unclass(u)
     res.tables.append("Nix lexical facts (keywords, bare alphabet, string escapes) embedded in sa/rules/c12.py")
     res.assumptions = ["Nix string lexing: \\n \\r \\t are control characters, any other \\x is x, a raw CR is normalised to LF"]
     return res
